@@ -6,7 +6,7 @@ BUF == 16384
 Mn(a, b) == IF a < b THEN a ELSE b
 Cands(f) == LET base == {0, 1, f - 1, f, f + 1} \cup UNION {{k * BUF - f, k * BUF - 1, k * BUF, k * BUF + 1, k * BUF + f} : k \in 1..3}
             IN {x \in base : x >= 0}
-Fs == {1, 2, 3, 4, 5, 6, 8, 10, 12}
+Fs == {1, 2, 3, 4, 5, 6, 8, 10, 12, 16384, 16386, 16401}
 Rows == UNION { { [F |-> f, promised |-> p, avail |-> a, frames |-> Mn(p, a \div f), warn |-> (a \div f < p)] :
                   p \in {q \in ({c \div f : c \in Cands(f)} \cup {(c \div f) + 1 : c \in Cands(f)}) : q >= 1}, a \in Cands(f) } : f \in Fs }
 ASSUME JsonSerialize(IOEnv.OUT_FILE, SetToSeq(Rows))
